@@ -16,7 +16,7 @@ from checks import common, kernelval
 META = {
     "technique": "c2lean translation of the C kernels to Lean (regenerated every run) + Lean 4 proofs over the reals about the generated definitions (unfolding, case split over every special-case branch, ring / linear_combination with the unit-norm hypotheses) + bitwise translation validation (Lean Float vs compiled C) + property oracle on the compiled functions",
     "text": "For the kernels of engine_util_spatial.c / engine_util_blas.c as translated from the working tree (mju_mulQuat, mju_negQuat, mju_mulQuatAxis, mju_derivQuat, mju_rotVecQuat, mju_quat2Mat, mju_mat2Quat, mju_mulMatVec3, mju_mulMatTVec3, mju_axisAngle2Quat, mju_normalize3/4, mju_quatIntegrate, mju_mulPose, mju_negPose, mju_trnVecPose), proved over the reals for all inputs (unit-norm hypotheses only where mathematically required), including every special-case branch of the C code (quat == identity, vec == 0, angle == 0, the mjMINVAL guards of mju_normalize3/4 and the normalisation inside mju_mulPose / mju_quatIntegrate): the quaternion product is associative with identity (1,0,0,0) and multiplicative norm; mju_negQuat is the two-sided inverse on unit quaternions and an anti-automorphism; rotation by a unit quaternion preserves the norm, rotation by q1*q2 is rotation by q2 then q1, q and -q rotate alike, the conjugate rotates back; mju_quat2Mat is multiplicative for all quaternions, M M^T = |q|^4 I and det M = |q|^6 (orthogonal with det 1 for unit q), transposition = conjugation, mju_rotVecQuat = M(q) v + (1-|q|^2) v (so it agrees with the matrix on unit q) and mju_mulMatTVec3 is the inverse rotation; mju_mat2Quat(mju_quat2Mat q) = +q or -q for every unit q in each of its four branches (hence mat->quat->mat is the identity on such matrices); mju_axisAngle2Quat gives a unit quaternion for a unit axis, fixes its axis, and angles about a common axis add; mju_normalize3 always returns a unit vector, mju_normalize4 returns a unit vector whenever it resets or divides and otherwise leaves the (within mjMINVAL of unit) input unchanged; mju_quatIntegrate = normalize4(q) * axisAngle(normalize3(v), h|v|), multiplies by a unit quaternion, so its result is unit in exactly the stated cases; for unit quaternions mju_mulPose composes exactly (its normalize4 is the identity), is associative with identity, mju_negPose is the two-sided inverse, mju_trnVecPose is a group action (trn(A*B) = trn A . trn B, the inverse pose undoes it); mju_subQuat inverts mju_quatIntegrate: subQuat(quatIntegrate(q,v,h), q) = h v for unit q whenever |v| >= mjMINVAL, |h||v| <= the mjPI literal 3.1415926535897931 and |sin(h|v|/2)| >= mjMINVAL (the exact conditions under which no reset/wrap branch of the C code fires; C atan2 modelled by arctan case analysis), and = 0 for h = 0.",
-    "note": "Stated over the reals: IEEE rounding is outside the proofs (translation validation is bitwise on Float, the oracle uses tolerances). Covered by the oracle only, not by a theorem: the converse round trip quatIntegrate(qb, subQuat(qa,qb), 1) = +-qa and the wrapped regime |h||v| > pi of subQuat(quatIntegrate) (both sampled incl. angles 0, 1e-12, near pi, beyond pi), mju_quat2Vel for dt != 1, mju_quatZ2Vec, mju_mat2Rot, mju_euler2Quat for all 216 sequence strings (c2lean refuses it: string argument / strnlen — compared on the compiled code with the product of axis rotations and with an independent rotation-matrix product), and the analytic derivatives mjd_subQuat / mjd_quatIntegrate (translated and bitwise-validated, but `= HasDerivAt` is not proved: central finite differences on the compiled code). The wrappers MjProof.Spatial.mulQuat etc. only uncurry the scalarised generated kernels. matMul / matT / matDet are specification-side definitions (mju_mulMatMat3 is not a translated kernel).",
+    "note": "Stated over the reals: IEEE rounding is outside the proofs (translation validation is bitwise on Float, the oracle uses tolerances). Covered by the oracle only, not by a theorem: the converse round trip quatIntegrate(qb, subQuat(qa,qb), 1) = +-qa and the wrapped regime |h||v| > pi of subQuat(quatIntegrate) (both sampled incl. angles 0, 1e-12, near pi, beyond pi), mju_quat2Vel for dt != 1, mju_quatZ2Vec, mju_mat2Rot, mju_euler2Quat for all 216 sequence strings (c2lean refuses it: string argument / strnlen — compared on the compiled code with the product of axis rotations and with an independent rotation-matrix product), and the analytic derivatives mjd_subQuat / mjd_quatIntegrate (translated and bitwise-validated; `= HasDerivAt` is NOT proved: central finite differences on the compiled code; only the `_partial` algebraic facts are theorems: Db = -Da^T, Dscale = Dvel vel, and Dquat = rotation matrix of the inverse increment quaternion in the closed-form branch |scale vel| > 1/32). The wrappers MjProof.Spatial.mulQuat etc. only uncurry the scalarised generated kernels. matMul / matT / matDet are specification-side definitions (mju_mulMatMat3 is not a translated kernel).",
 }
 
 P = "MjProof.C24."
@@ -34,6 +34,7 @@ THEOREMS = [P + t for t in (
     "mulPose_assoc", "trnVecPose_mulPose", "trnVecPose_one", "trnVecPose_negPose",
     "mat2Quat_quat2Mat", "quat2Mat_mat2Quat_quat2Mat",
     "subQuat_eq_quat2Vel", "subQuat_quatIntegrate", "subQuat_self", "subQuat_quatIntegrate_zero",
+    "mjd_subQuat_Db_partial", "mjd_quatIntegrate_Dscale_partial", "mjd_quatIntegrate_Dquat_partial",
 )]
 
 # kernels whose translation is validated for this property
@@ -624,11 +625,15 @@ def run(ctx):
     impl = ctx.harness("harness/c/c24_oracle.c", "c24_oracle")
     dev = Dev()
     if impl:
+        lines = []
         if getattr(ctx, "replay", None):
-            rp = json.load(open(ctx.replay))
-            lines = [f["replay"]["line"] for f in rp.get("failures", []) if "line" in f.get("replay", {})]
-        else:
-            lines = gen_oracle_lines(ctx, 6000 if thorough else 400)
+            # the recorded failing op lines are re-judged first, then the seeded run is repeated
+            try:
+                rp = json.load(open(ctx.replay))
+                lines = [f["replay"]["line"] for f in rp.get("failures", []) if "line" in f.get("replay", {})]
+            except (OSError, ValueError, KeyError, TypeError):
+                lines = []
+        lines = lines + gen_oracle_lines(ctx, 6000 if thorough else 400)
         found, nfail = run_oracle(ctx, impl, lines, dev)
         for f in found:
             ctx.oracle_failure(f["key"], f["what"], f["replay"])
